@@ -364,6 +364,30 @@ def check_class(chk, P, ci, m, qs):
             seen_ill.add((e.loc, e.what))
             chk.ob("R-INV", construct + "[well-typed]", "no operation on the path raises for every input", False, derived=e.what, loc=e.loc, stmt=e.stmt,
                    detail="the operation cannot complete: it raises")
+        # the same entry as a caller who leaves every option out reaches it: an option left at None / its literal default is that value,
+        # not "anything", so `None + 1` on the default path shows (the generalised run above joins None with a number and cannot see it)
+        if any(p_ in meth.defaults for p_ in meth.params) and not seen_ill and not meth.is_property and meth.setter_of is None:
+            I2 = Interp(P)
+            I2.atoms = {R, DT}
+            st_d = State()
+            o_d, oav_d = make_signal(I2, st_d, ci, name="self", flags="unknown", is_param=False)
+            args_d = {k_: v_ for k_, v_ in auto_args(I2, st_d, meth, P).items() if k_ not in meth.defaults}
+            if meth.name == "reset_values":
+                args_d["new_values"] = rec_array("new_values", n="m")
+            bound_d = I2.bind(meth, [oav_d], args_d, None, None)
+            if meth.kwarg:
+                bound_d[meth.kwarg] = AV(kind=K_DICT, dvals={}, dmust=frozenset(), dmay=frozenset())
+            try:
+                I2.run(meth, bound_d, st_d, self_obj=o_d)
+                chk.absorb_interp(I2)
+                for e in [e for e in I2.events if e.kind in ("type-error", "index-error") and e.fn == meth.qualname][:2]:
+                    if (e.loc, e.what) in seen_ill:
+                        continue
+                    seen_ill.add((e.loc, e.what))
+                    chk.ob("R-INV", construct + "[well-typed, options left out]", "no operation on the default path raises for every input", False,
+                           derived=e.what, loc=e.loc, stmt=e.stmt, detail="called with its options left out the operation cannot complete: it raises")
+            except AnalysisError:
+                pass
         # R-INV: one obligation per (entry, quantity)
         remaining = {}
         if exit_state is not None:
